@@ -50,6 +50,15 @@ CLAIMED = {
         "Tied to /repo by broker runs with bid != ask and rates in [0,1], and the fee models alone on random considerations.",
    note=TRUST + "BacktestDataHandler returns (bid, bid); the property is checked at the broker/data-handler interface with a stub whose bid != ask.",
    design="7/C05", technique="Coq proof by induction over the executed order list; Q arithmetic lemmas + correspondence check"),
+ 'C06': dict(
+   text="Machine-checked theorems (props/C06.v) over an operational model of the pandas pipeline (sort, adjust, open/close observations, "
+        "forward fill, at-or-before lookup): the answer is the last non-missing observation at or before t (NaN before the first open); "
+        "it depends only on rows dated on or before day(t) (any later rows rewritten/removed/added, any row order); availability is "
+        "monotone; handler bid = ask = mid. point_in_time_refuted shows the pinned wrap-around lookup violates it. Tied to /repo by CSV "
+        "directories written by the harness and loaded by the real CSVDailyBarDataSource + BacktestDataHandler, boundary-instant queries, "
+        "and metamorphic re-runs with the future removed or rewritten.",
+   note=TRUST + "The model is fed the values pandas parsed from the CSV (CSV parsing itself is out of scope); duplicate dates (a pandas constructor error) are excluded by the NoDup hypothesis.",
+   design="7/C06", technique="Coq proof (sorted-list / permutation / forward-fill lemmas) + model/implementation correspondence check"),
  'C09': dict(
    text="Machine-checked theorems (props/C09.v): the recorded allocation covers exactly held + universe + alpha keys (zero where alpha is "
         "silent); the order list is exactly target - current per target asset and nothing else, ascending (insertion sort proved a sorted "
@@ -99,6 +108,14 @@ CLAIMED = {
    note=TRUST + "Partial: that an update which passes the up-front timestamp validation can no longer be refused for an early "
         "timestamp deeper down is covered by the correspondence runs, not yet by a theorem. Clocks are excluded (not in the property's list).",
    design="7/C15", technique="Coq proof by case analysis on the step function + model/implementation correspondence check"),
+ 'C19': dict(
+   text="Machine-checked theorems (props/C19.v): dynamic-universe membership iff an entry time e <= t exists (inclusive; no entry = never), "
+        "static universe = its list, the universe-driven alpha weights exactly the members, fixed-weight optimiser = identity, equal-weight "
+        "optimiser = scale/N each summing to the scale on the same keys. Tied to /repo by the real universes queried around every entry "
+        "instant and the real optimisers on random dictionaries; the session-level part (first weight/order/position at the first rebalance "
+        "at or after entry) is exercised by the backtest correspondence.",
+   note=TRUST + "Session-level statements are covered by the backtest model/correspondence (C07/C08/C14 machinery), see DESIGN.md.",
+   design="7/C19", technique="Coq proof (list membership / field arithmetic) + model/implementation correspondence check"),
 }
 
 def main():
